@@ -62,6 +62,19 @@ def blocking_calls(func):
     return out
 
 
+def link_names(func):
+    """'self.link' and the locals of ``func`` that are bound (only) to it: the link as the function names it"""
+    out = {'self.link'}
+    binds = {}
+    for s_ in walk_own(func.node):
+        if isinstance(s_, ast.Assign) and len(s_.targets) == 1 and isinstance(s_.targets[0], ast.Name):
+            binds.setdefault(s_.targets[0].id, []).append(norm(s_.value))
+    for k_, vs in binds.items():
+        if set(vs) == {'self.link'}:
+            out.add(k_)
+    return out
+
+
 def sync_wait_release_rules(ctx, rule='R5'):
     """Every untimed Event.wait in SyncCrazyflie.open_link / close_link is released by each callback with which the attempt can end
     (connected, connection_failed, disconnected), and nothing that can fail runs in the callback before the release.  Shared with
@@ -126,7 +139,7 @@ def check(ctx):
     ctx.inst('R1', ol, 'no-driver-fails-without-setup', ok, 'without a driver connection_failed is signalled and set-up is not started')
     stn = [n for n in g.nodes if n.kind == 'stmt' and isinstance(n.ast, ast.Assign) and norm(n.ast.targets[0]) == 'self.state']
     ctx.inst('R1', ol, 'state-initialized', len(stn) == 1 and norm(stn[0].ast.value) == 'State.INITIALIZED' and g.dominates(stn[0], g.nodes_containing(look[0])[0]), 'state = INITIALIZED before the driver is looked up')
-    hc = [c for s in (h0.body if h0 else []) for c in walk_own(s) if method_call(c, 'close') and norm(c.func.value) == 'self.link']
+    hc = [c for s in (h0.body if h0 else []) for c in walk_own(s) if method_call(c, 'close') and norm(c.func.value) in link_names(ol)]
     ctx.inst('R1', ol, 'failed-open-closes-link', len(hc) == 1, 'a link that was obtained is closed when set-up raises')
 
     # ---- R2 ------------------------------------------------------------------------
@@ -204,8 +217,9 @@ def check(ctx):
     ok = len(ends) == 1 and norm(ends[0].ast.value) == 'State.DISCONNECTED' and ('n', ends[0].id) in g.dom()[('n', g.exit.id)] and all(g.path_avoiding(ends[0], [n]) is None for n, _ in calls)
     ctx.inst('R3', le, 'ends-disconnected', ok, 'after the fan-out the state is DISCONNECTED on every path')
     nul = [n for n in g.nodes if n.kind == 'stmt' and isinstance(n.ast, ast.Assign) and norm(n.ast.targets[0]) == 'self.link' and norm(n.ast.value) == 'None']
-    cl = g.find(lambda q: method_call(q, 'close') and norm(q.func.value) == 'self.link')
-    ok = len(nul) == 1 and ('n', nul[0].id) in g.dom()[('n', g.exit.id)] and len(cl) == 1 and fact_key('self.link is not None', True) in g.fact_keys_at(cl[0][0]) and \
+    lk = link_names(le)
+    cl = g.find(lambda q: method_call(q, 'close') and norm(q.func.value) in lk)
+    ok = len(nul) == 1 and ('n', nul[0].id) in g.dom()[('n', g.exit.id)] and len(cl) == 1 and fact_key('%s is not None' % norm(cl[0][1].func.value), True) in g.fact_keys_at(cl[0][0]) and \
         all(g.dominates(nul[0], n) for n, _ in calls)
     ctx.inst('R3', le, 'link-closed-and-nulled-first', ok, 'the link is closed (if any) and nulled before any callback runs')
     for n, c in calls:
@@ -222,15 +236,26 @@ def check(ctx):
     others = g.find(lambda q: method_call(q, 'call') and norm(q.func.value) in ('self.connection_lost', 'self.connection_failed', 'self.connected', 'self.fully_connected'))
     ctx.inst('R4', cl_, 'no-other-signals', not others, 'close_link signals nothing else: %s' % [norm(c) for _, c in others])
     nul = [n for n in g.nodes if n.kind == 'stmt' and isinstance(n.ast, ast.Assign) and norm(n.ast.targets[0]) == 'self.link' and norm(n.ast.value) == 'None']
-    clo = g.find(lambda q: method_call(q, 'close') and norm(q.func.value) == 'self.link')
-    ok = len(nul) == 1 and len(clo) == 1 and g.dominates(clo[0][0], nul[0]) and fact_key('self.link is not None', True) in g.fact_keys_at(nul[0]) and bool(dc) and g.path_avoiding(dc[0][0], [clo[0][0]]) is None
+    lk = link_names(cl_)
+    clo = g.find(lambda q: method_call(q, 'close') and norm(q.func.value) in lk)
+    recv = norm(clo[0][1].func.value) if clo else 'self.link'
+    ok = len(nul) == 1 and len(clo) == 1 and g.dominates(clo[0][0], nul[0]) and fact_key('%s is not None' % recv, True) in g.fact_keys_at(nul[0]) and bool(dc) and g.path_avoiding(dc[0][0], [clo[0][0]]) is None
     ctx.inst('R4', cl_, 'link-closed-and-nulled', ok, 'an open link is closed and nulled before disconnected is signalled')
     # the zero setpoint goes through the link: a driver that reports a send error calls _link_error_cb, which nulls self.link, so the
     # attribute has to be tested again after that call (a test before it says nothing about the link at the time of the close)
     if len(clo) == 1:
         cst = enclosing_stmt(cl_.node, clo[0][1])
-        holder = [i for i in ast.walk(cl_.node) if isinstance(i, ast.If) and cst in i.body and any(norm(x) == 'self.link' for x in ast.walk(i.test))]
+        holder = [i for i in ast.walk(cl_.node) if isinstance(i, ast.If) and cst in i.body and any(norm(x) == recv for x in ast.walk(i.test))]
         between = [norm(c)[:50] for i in holder[:1] for st in i.body[:i.body.index(cst)] if not is_noise(st) for c in ast.walk(st) if isinstance(c, ast.Call)]
+        if recv != 'self.link' and holder:
+            # the link was read into a local: that read is what has to come after the last call (the statements between the read
+            # and the test, in the block that holds both)
+            for blk in [b_ for n_ in ast.walk(cl_.node) for b_ in (getattr(n_, 'body', None), getattr(n_, 'orelse', None)) if isinstance(b_, list) and holder[0] in b_]:
+                rd_ = [i_ for i_, st in enumerate(blk[:blk.index(holder[0])]) if isinstance(st, ast.Assign) and norm(st.targets[0]) == recv]
+                if not rd_:
+                    between.append('%s is read outside the block of the test' % recv)
+                else:
+                    between += [norm(c)[:50] for st in blk[rd_[-1] + 1:blk.index(holder[0])] if not is_noise(st) for c in ast.walk(st) if isinstance(c, ast.Call)]
         ctx.inst('R4', cl_, 'link-tested-right-before-close', bool(holder) and not between,
                  'self.link.close() runs under a test of self.link with no call in between (a call that sends through the link can end it: %s)' % (between or 'no enclosing test'))
     ends = [n for n in g.nodes if n.kind == 'stmt' and isinstance(n.ast, ast.Assign) and norm(n.ast.targets[0]) == 'self.state']
@@ -357,7 +382,11 @@ def check(ctx):
     ctx.inst('R12', pd, 'disconnect-closes-updater', any(method_call(c, 'close') and norm(c.func.value) == 'self.param_updater' for c in walk_own(pd.node)), 'Param._disconnected closes the updater')
 
     # ---- R9 / R10 ------------------------------------------------------------------------
-    for path, qual in ((CF, '_IncomingPacketHandler.run'), ('cflib/crazyflie/param.py', '_ParamUpdater.run'), ('cflib/crazyflie/param.py', '_ExtendedTypeFetcher.run')):
+    link_users = [(CF, '_IncomingPacketHandler.run'), ('cflib/crazyflie/param.py', '_ParamUpdater.run'), ('cflib/crazyflie/param.py', '_ExtendedTypeFetcher.run')]
+    # ... and the methods of Crazyflie itself: send_packet runs on every thread that sends (parameter updater, fetchers, ping, the
+    # application), close_link on the application's, _link_error_cb on the driver's - none of them holds a lock the others respect
+    link_users += [(CF, 'Crazyflie.' + mn) for mn in ('send_packet', 'close_link', '_link_error_cb', 'open_link') if K.has(mn)]
+    for path, qual in link_users:
         f = m.func(path, qual)
         tested, used = set(), []
         for n in ast.walk(f.node):
@@ -367,6 +396,14 @@ def check(ctx):
                         tested.add(norm(x))
             if isinstance(n, ast.Call) and isinstance(n.func, ast.Attribute) and isinstance(n.func.value, ast.Attribute) and n.func.value.attr == 'link':
                 used.append(norm(n.func.value))
+        # ... the same one step removed: tested, then read into a local under that test (`if self.link is not None: link = self.link`)
+        for i_ in ast.walk(f.node):
+            if isinstance(i_, (ast.If, ast.While)):
+                tl = {norm(x) for x in ast.walk(i_.test) if isinstance(x, ast.Attribute) and x.attr == 'link'}
+                for st_ in i_.body:
+                    for a_ in ast.walk(st_):
+                        if isinstance(a_, ast.Assign) and isinstance(a_.value, ast.Attribute) and norm(a_.value) in tl:
+                            used.append(norm(a_.value))
         bad = sorted(set(used) & tested)
         ctx.inst('R9', f, 'no-test-then-reload-of-link', not bad,
                  '%s is tested and then loaded again for a method call; another thread (close_link / link error) can null it in between and the thread dies' % bad)
@@ -591,7 +628,8 @@ def protected_join(func, call):
 VARIANTS = [
     M('R8', LS, "            if self._ping_thread_instance is not current_thread():", "            if self._ping_thread is not current_thread():", 'self-join guard compares the bound method'),
     M('R11', 'cflib/crazyflie/toc.py', "                if (self.nbr_of_items > 0):", "                if (self.nbr_of_items > 1):", 'one-entry table treated as empty'),
-    M('R4', CF, "            self.commander.send_setpoint(0, 0, 0, 0)\n        if (self.link is not None):\n            self.link.close()", "            self.commander.send_setpoint(0, 0, 0, 0)\n            self.link.close()", 'link not re-tested after the zero setpoint'),
+    M('R4', CF, "            self.commander.send_setpoint(0, 0, 0, 0)\n        link = self.link\n        if (link is not None):\n            link.close()", "            link = self.link\n            self.commander.send_setpoint(0, 0, 0, 0)\n            link.close()", 'link not re-read after the zero setpoint'),
+    M('R9', CF, "            link = self.link\n            if link is not None:\n                if len(expected_reply) > 0 and not resend and \\\n                        link.needs_resending:", "            if self.link is not None:\n                link = self.link\n                if len(expected_reply) > 0 and not resend and \\\n                        link.needs_resending:", 'F-02g reintroduced: tested, then loaded again'),
     M('R10', CF, "            pk = link.receive_packet(1)", "            pk = link.receive_packet(-1)", 'dispatcher blocks for ever on one link'),
     M('R2', PM, "            for n in self.toc.toc[g]:\n                if n not in self.values[g]:\n                    return False\n", "", 'a group with one value counts as complete'),
     M('R2', PM, "            if self._check_if_all_updated() and not self.is_updated:", "            if not self.is_updated:", 'all_updated on the first value'),
